@@ -2,7 +2,7 @@
    check_case: 0 ok, +1 the model disagrees with what the implementation did, +2 the observed
    behaviour violates the specification of that part of the property. *)
 From Coq Require Import List Arith Bool NArith ZArith Ascii String.
-From AV Require Import lib.Str model.C05_model model.C06_model model.C06_unix model.C06_mounts.
+From AV Require Import lib.Str model.C05_model model.C06_model model.C06_unix model.C06_mounts model.C06_azure.
 Import ListNotations.
 
 Inductive case :=
@@ -31,6 +31,9 @@ Inductive case :=
 (* GET /mounts/<uuid>/blocks?prefix=pfx answered by the real handler over a real Directory volume whose root holds
    the entries ents (block directories, entries that cannot be opened or listed, other names) *)
 | CUnix (pfx : string) (ents : list uent) (obody : string)
+(* the same request answered by the real handler over a real AzureBlobVolume talking to a stub service that answers the
+   successive list requests of every page as scripted (ListBlobsMaxAttempts = maxatt) *)
+| CAzure (maxatt : nat) (pages : list apage) (obody : string)
 (* Balancer.Run with (at most) one failing request: PUTs received by the keepstores, Run returned nil?
    mounts: what the keepstores advertise (GET /mounts); oidx: the mounts whose index was requested in this run *)
 | CSweep (cfg : sweep_cfg) (mounts : list mnt) (failed : option req) (oidx : list nat) (oputs : list put) (ook : bool).
@@ -127,6 +130,10 @@ Definition spec_b (c : case) : bool :=
     snd (unix_index pfx ents) ||
       (match parse_index obody with inl _ => true | inr _ => false end &&
        match get_index obody with None => true | Some _ => false end)
+  | CAzure maxatt pages obody =>
+    snd (az_index maxatt pages) ||
+      (match parse_index obody with inl _ => true | inr _ => false end &&
+       match get_index obody with None => true | Some _ => false end)
   | CSweep cfg mounts failed oidx oputs ook =>
     (* a sweep that reports success has fetched an index covering every mount the keepstores advertise *)
     (negb ook || all_covered mounts oidx) &&
@@ -179,6 +186,7 @@ Definition model_b (c : case) : bool :=
     end
   | CHandler vols obody => String.eqb (handle_index vols) obody
   | CUnix pfx ents obody => same_lines (unix_response pfx ents) obody
+  | CAzure maxatt pages obody => String.eqb (az_response maxatt pages) obody
   | CSweep cfg mounts failed oidx oputs ook =>
     let '(puts, ok) := sweep cfg (fails_of failed) in
     puts_eqb (put_sort puts) (put_sort oputs) && Bool.eqb ok ook &&
